@@ -167,6 +167,11 @@ def match_known(prop, res, known):
     for f in known:
         if f["property"] != prop:
             continue
+        exp = f.get("expect") or {}
+        if exp.get("oracle") and exp["oracle"] != res.get("oracle"):
+            continue
+        if exp.get("signature_regex") and not re.search(exp["signature_regex"], res.get("signature", "")):
+            continue
         if f.get("oracle") and f["oracle"] != res.get("oracle"):
             continue
         if f.get("signature_regex") and not re.search(f["signature_regex"], res.get("signature", "")):
@@ -240,12 +245,26 @@ def check(prop, tier="quick", seed=0, procs=16, n_sessions=None, budget_s=None, 
     viol_known = {}
     harness = []
     with Templates() as tpl:
+        # known findings: re-run each finding's own probe; it is reported only while it still fails as recorded
+        for f in known:
+            if f["property"] != prop or not f.get("probe"):
+                continue
+            pspec = dict(f["probe"], hash_seed=f.get("probe_hash_seed", 0))
+            pr = run_one(tpl, prop, tier, 0, cap_s, spec=pspec)
+            if pr.get("verdict") == "violation" and match_known(prop, pr, [f]) is not None:
+                viol_known.setdefault(f["id"], []).append(pr)
+            elif pr.get("verdict") == "violation":
+                pr["spec"] = pspec
+                viol_new.append(pr)
+            elif pr.get("verdict") == "harness_error":
+                harness.append(pr)
         results, wall, stopped_early = run_batch(prop, tier, seed, sessions, procs, cap_s, budget_s, tpl)
         # classify
         for r in results:
             v = r.get("verdict")
             if v == "violation":
-                kf = match_known(prop, r, known)
+                # session violations are matched only against findings that declare a session-level signature
+                kf = match_known(prop, r, [k for k in known if k.get("match_sessions")])
                 if kf is not None:
                     viol_known.setdefault(kf["id"], []).append(r)
                 else:
